@@ -25,6 +25,21 @@ def counting_lemmas():
 
 
 NATIVE = r"""
+static int vf_sparse = 0;
+int mj_isSparse(const mjModel* m) { (void)m; return vf_sparse; }
+// all trees the generic scan of one Jacobian row yields, in order (at most cap); returns their number
+int vf_scan(int sparse, int nv, int ntree, const int* dof_treeid, const int* tree_dofadr, const int* tree_dofnum,
+            const double* Jrow, int rownnz, const int* colind, int* out, int cap) {
+  mjModel m; mjData d; memset(&m, 0, sizeof m); memset(&d, 0, sizeof d);
+  vf_sparse = sparse;
+  m.nv = nv; m.ntree = ntree; m.dof_treeid = (int*)dof_treeid; m.tree_dofadr = (int*)tree_dofadr; m.tree_dofnum = (int*)tree_dofnum;
+  int rn[1] = {rownnz}, ra[1] = {0};
+  d.efc_J = (mjtNum*)Jrow; d.efc_J_rownnz = rn; d.efc_J_rowadr = ra; d.efc_J_colind = (int*)colind;
+  mjTreeIter it; it.trees[0] = -2; it.trees[1] = -2; it.jac_idx = 0; it.tree_prev = -1;
+  int k = 0;
+  for (;;) { int t = treeNext(&m, &d, 0, &it); if (t == -2 || k >= cap) break; out[k++] = t; }
+  return k;
+}
 int vf_run(int n, int nops, const int* ops, int* parent, int* island, int* nidof) {
   int dofnum[16];
   for (int i=0; i<n; i++) { parent[i] = -1; island[i] = -7; dofnum[i] = i+1; }
@@ -86,6 +101,28 @@ def native_contract_run(open_obligations=(), budget=4000):
                         'input': {'ntree': n, 'merges': seq}, 'observed': {'nisland': r, 'tree_island': got, 'nidof': nidof.value},
                         'expected': {'nisland': len(roots), 'tree_island': want, 'nidof': wdof},
                         'violated_clause': 'islands are the connected components; ids ascend with the smallest tree', 'cases_run': count}
+        # generic Jacobian-row scan (treeNext), dense and sparse layout
+        for trial in range(2000):
+            ntree = rnd.randint(1, 4)
+            dofnum = [rnd.randint(1, 3) for _ in range(ntree)]
+            dofadr = [sum(dofnum[:t]) for t in range(ntree)]
+            nv = sum(dofnum)
+            treeid = [t for t in range(ntree) for _ in range(dofnum[t])]
+            row = [rnd.choice([0.0, 0.0, 1.5, -2.0]) for _ in range(nv)]
+            want = []
+            for q in range(nv):
+                if row[q] != 0.0 and (not want or want[-1] != treeid[q]):
+                    want.append(treeid[q])
+            cols = [q for q in range(nv) if row[q] != 0.0]
+            for sparse in (0, 1):
+                out = (ctypes.c_int * 16)()
+                jr = (ctypes.c_double * max(1, nv))(*(row if not sparse else [row[q] for q in cols] + [0.0] * (max(1, nv) - len(cols))))
+                k = lib.vf_scan(sparse, nv, ntree, (ctypes.c_int * nv)(*treeid), (ctypes.c_int * ntree)(*dofadr), (ctypes.c_int * ntree)(*dofnum),
+                                jr, len(cols), (ctypes.c_int * max(1, len(cols)))(*(cols or [0])), out, 16)
+                count += 1
+                if list(out[:k]) != want:
+                    return {'reproduced': True, 'name': 'treeNext_generic_scan', 'input': {'layout': 'sparse' if sparse else 'dense', 'dof_treeid': treeid, 'jacobian_row': row},
+                            'observed': list(out[:k]), 'expected': want, 'violated_clause': 'the scan yields the tree of every non-zero entry, consecutive repeats merged', 'cases_run': count}
         return {'reproduced': False, 'cases_run': count}
     finally:
         native.cleanup(d)
@@ -97,6 +134,8 @@ def main():
     C = island.contracts()
     for fn in ('mj_dsuRoot', 'mj_dsuMerge', 'mj_dsuAssign'):
         chk.unit(F, fn, C, 'math', 'fp')
+    for sp in (True, False):
+        chk.unit(F, 'treeNext', island.next_contracts(sp), 'math', 'fp', prefix='[%s]' % ('sparse' if sp else 'dense'))
     chk.add_obligations(counting_lemmas(), {'function': 'cnt (ghost counting function): induction lemmas', 'file': 'contracts/island.py',
                                             'status': 'lemma', 'obligations': 4})
     import time
@@ -114,7 +153,7 @@ def main():
         'the dof counts of the active trees sum to less than 2^31 (they are dofs of one model)',
     }
     chk.out_of_reach += [
-        'unionConstraintTrees / treeIterInit / treeNext (which trees a constraint row touches; needs an evolving ghost witness through the row loop) - not under contract',
+        'unionConstraintTrees / treeIterInit (which rows are scanned and how their trees are merged; needs an evolving ghost witness through the row loop) - not under contract; the generic scan treeNext is',
         'mj_island map construction (dof / efc permutations being mutually inverse) - not under contract',
         'mj_floodFill (legacy DFS, not on the mj_island path)']
     return chk.finish()
